@@ -592,6 +592,52 @@ def check_enumeration(prop, gp, b, case, emit, col, rk_dv, corrected, dvs, kinds
     return (rows, acts) if n_dec == len(rows) else None
 
 
+def check_huge_fast(col, seed):
+    """C14 in the regime the fast encoder exists for: design spaces far too large for the complete analysis
+    (62 / 63 / 64 / 70 independent two-option choices, 2 x 41 three-option choices).  Only the fast encoder is built;
+    seeded vectors must decode to exactly the chosen options, unchanged."""
+    from adsg_core.optimization.graph_processor import GraphProcessor
+    from adsg_core.optimization.hierarchy.registry import SelChoiceEncoderType
+    for n_ch, n_opt in ((62, 2), (63, 2), (64, 2), (70, 2), (41, 3)):
+        nodes = [{'id': 'R', 'kind': 'named'}]
+        sel = []
+        for i in range(n_ch):
+            opts = ['O%d_%d' % (i, j) for j in range(n_opt)]
+            nodes += [{'id': o, 'kind': 'named'} for o in opts]
+            sel.append({'key': 'C%03d' % i, 'id': 'C%03d' % i, 'origin': 'R', 'options': opts})
+        sp = S.normalize({'nodes': nodes, 'edges': [], 'sel': sel, 'start': ['R']})
+        col.evaluations += 1
+        col.count('monitor_huge_fast_cases')
+        emit = Emit('C14', col, {'huge': [n_ch, n_opt]}, [], 'FAST')
+        b = B.build(sp)
+        try:
+            gp = GraphProcessor(b.dsg, encoder_type=SelChoiceEncoderType.FAST)
+            dvs = gp.des_vars
+        except Exception as e:  # noqa
+            info = D.exc_info(e)
+            emit('construct_exception', {'stage': 'processor', 'exc': info, 'n_choices': n_ch, 'n_options': n_opt},
+                 where={'exc': info['type'], 'site': info['site'], 'huge': True})
+            continue
+        rnd = gen.rng_for('c14huge', seed, n_ch, n_opt)
+        for _ in range(4):
+            x = [rnd.randrange(dv.n_opts) for dv in dvs]
+            col.count('monitor_huge_fast_decodes')
+            try:
+                g, x1, a1 = gp.get_graph(x)
+                want = {'R'} | {sel[i]['options'][v] for i, v in enumerate(x)}
+                got = {b.name(n) for n in g.graph.nodes}
+                if D.to_list(x1) != x or not all(a1) or got != want or not g.final or not g.feasible:
+                    emit('not_an_admissible_architecture', {'n_choices': n_ch, 'x_changed': D.to_list(x1) != x,
+                                                            'extra': sorted(got - want)[:3], 'missing': sorted(want - got)[:3]},
+                         where={'huge': True})
+                    break
+            except Exception as e:  # noqa
+                info = D.exc_info(e)
+                emit('decode_exception', {'exc': info, 'n_choices': n_ch, 'n_options': n_opt},
+                     where={'exc': info['type'], 'site': info['site'], 'huge': True})
+                break
+
+
 def worker(task, col):
     prop = task['prop']
     from adsg_core.optimization.graph_processor import GraphProcessor
@@ -604,6 +650,8 @@ def worker(task, col):
         v = task['replay']['violation']
         common.guard(col, check_case, prop, v['spec'], col, 'replay', cap=max(cap, 2000))
         return
+    if task['shard'] == 1 and prop == 'C14':
+        common.guard(col, check_huge_fast, col, task['seed'])
     if task['shard'] == 0:
         for c in common.corpus(prop):
             n0 = len(col.violations)
